@@ -420,6 +420,67 @@ STRUCT_QUICK = [(4, 4), (3, 5), (5, 3), (6, 6)]
 STRUCT_THOROUGH = [(4, 4), (3, 5), (5, 3), (6, 6), (5, 5), (3, 4), (4, 3), (1, 7), (7, 1), (8, 8), (4, 9), (9, 4), (10, 10), (12, 5), (5, 12), (12, 12)]
 
 
+# mixed sequences ------------------------------------------------------------------------------------------------
+# Inputs that are forced to collide in anything the library might remember between calls: grids with the same number of cells
+# but different shapes (their connection arrays can have identical bytes), the same graph as different kinds / with different
+# ends. One fresh interpreter renders and reads back the whole interleaved sequence; every element is judged by the same oracle
+# as above, so an answer that depends on what was rendered before shows up. Replay re-runs the sequence prefix.
+MIXED_GROUPS_QUICK = [[(1, 3), (3, 1)], [(1, 4), (4, 1), (2, 2)], [(2, 3), (3, 2)]]
+MIXED_GROUPS_THOROUGH = MIXED_GROUPS_QUICK + [[(2, 4), (4, 2)], [(1, 5), (5, 1)]]
+
+
+def mixed_sequence(group, order):
+    per_shape = []
+    for (r, c) in group:
+        specs = []
+        cells = R.cells(r, c)
+        for bits in range(R.n_graphs(r, c)):
+            adj = R.adjacency(R.graph_from_bits(r, c, bits))
+            base = dict(r=r, c=c, bits=bits)
+            specs.append(dict(base, kind="L"))
+            specs.append(dict(base, kind="T", start=cells[0], end=cells[-1]))
+            specs.append(dict(base, kind="T", start=cells[-1], end=cells[0]))
+            dist = R.bfs_dist(adj, cells[0])
+            far = max(dist, key=lambda x: (dist[x], x))
+            if far != cells[0]:
+                specs.append(dict(base, kind="S", start=cells[0], end=far, sol=R.all_shortest_paths(adj, cells[0], far)[0]))
+        per_shape.append(specs)
+    seq = []
+    if order == "interleaved":
+        for k in range(max(len(x) for x in per_shape)):
+            for specs in per_shape:
+                if k < len(specs):
+                    seq.append(specs[k])
+    elif order == "shape_major":
+        for specs in per_shape:
+            seq += specs
+    else:  # reversed shape-major
+        for specs in reversed(per_shape):
+            seq += specs
+    return seq
+
+
+def mixed_task(t, res, upto=None):
+    from ..runner import Result
+
+    seq = mixed_sequence([tuple(x) for x in t["group"]], t["order"])
+    n = len(seq) if upto is None else upto + 1
+    for i, spec in enumerate(seq[:n]):
+        sub = Result()
+        check_maze(spec, sub, None, True)
+        res.evaluations += sub.evaluations
+        if upto is None:
+            res.nontrivial(("mixed", t["order"], i, tuple(map(tuple, t["group"]))))
+            res.count("mixed_sequence_elements")
+        if upto is not None and i != upto:
+            continue
+        for f in sub.fails:
+            res.fail("C10|mixed_sequence|" + f["key"].split("|", 1)[1], f"as element {i} of the {t['order']} sequence over shapes {t['group']} rendered in one "
+                     f"process: " + f["what"], dict(kind_="mixed", group=t["group"], order=t["order"], index=i))
+        if upto is None and sub.fails:
+            return  # later elements may be poisoned by the same remembered state; one report per sequence is enough
+
+
 def quick_33_bits():
     """3x3 in the quick tier: every spanning tree, every graph with <= 1 edge missing and every graph with <= 1 edge"""
     E = len(R.lattice_edges(3, 3))
@@ -467,6 +528,8 @@ def run(ctx):
     tasks, cov = plan(ctx.tier)
     ctx.pmap(MOD, "selfcheck_task", [dict()])
     ctx.pmap(MOD, "any_task", [dict(fn=fn, arg=arg) for fn, arg in tasks])
+    groups = MIXED_GROUPS_QUICK if ctx.quick else MIXED_GROUPS_THOROUGH
+    ctx.pmap(MOD, "mixed_task", [dict(group=g, order=o) for g in groups for o in ("interleaved", "shape_major", "reversed")], fresh=True)
     ctx.coverage.update(
         bounds=cov,
         flag_combinations=[flagname(*f) for f in FLAGS],
@@ -474,11 +537,13 @@ def run(ctx):
         mazes_targeted=ctx.res.counters.get("mazes_T", 0),
         mazes_solved=ctx.res.counters.get("mazes_S", 0),
         structured_shapes=STRUCT_QUICK if ctx.quick else STRUCT_THOROUGH,
+        mixed_sequences=dict(groups=groups, orders=["interleaved", "shape_major", "reversed"], elements=ctx.res.counters.get("mixed_sequence_elements", 0)),
     )
     ctx.rule = ("every connection structure of the listed grids x {plain, every ordered start/end pair (start == end: rendering only, "
                 "either endpoint colour accepted), every shortest path of every connected pair, on <= 6 cells also every other simple path "
                 "(rendering only)} x 4 flag combinations x {pixels, ASCII} + read-back of the full picture and text; structured larger "
-                "mazes with landmark pairs and up to `cap` shortest paths each. distinct = distinct (kind, shape, bits, start, end, solution)")
+                "mazes with landmark pairs and up to `cap` shortest paths each; mixed sequences: all graphs of same-cell-count shapes x 4 kinds/ends rendered in one "
+                "fresh interpreter in 3 orders. distinct = distinct (kind, shape, bits, start, end, solution)")
     ctx.exhaustive = True
     ctx.assumptions += [
         "(show_endpoints=False, show_solution=True) may be rejected with ValueError (documented); the three other combinations must be accepted",
@@ -490,5 +555,8 @@ def run(ctx):
 
 
 def replay(d, res):
+    if d.get("kind_") == "mixed":
+        mixed_task(dict(group=d["group"], order=d["order"]), res, upto=d["index"])
+        return
     spec = dict(kind=d["kind"], r=d["r"], c=d["c"], bits=d["bits"], start=d.get("start"), end=d.get("end"), sol=d.get("sol"))
     check_maze(spec, res, None, d.get("roundtrip", True))
